@@ -262,7 +262,12 @@ class SAMIReader(BaseReader):
             result = pattern.search(tag)
             if not result:
                 return
-            tag_text = result.groups()[0]
+            # text wrapped over several source lines keeps all of its
+            # lines (the pattern above stops at the first line break): the
+            # trailing line break and indentation go away, an inner line
+            # wrap becomes a single space
+            tag_text = re.sub("[\n\r]+\\s*$", "", tag[result.start(1):])
+            tag_text = re.sub("\\s*[\n\r]+\\s*", " ", tag_text)
             self.line.append(CaptionNode.create_text(tag_text, inherit_from))
         # convert line breaks
         elif tag.name == 'br':
